@@ -24,7 +24,9 @@ VALUES = {
     "number102": {"zero": [D("0.00")], "max_full_scale": [D("99999999.99")], "min_full_scale": [D("-99999999.99")], "smallest_step": [D("0.01"), D("-0.01")]},
     "int": {"zero": [0], "int64max": [2**63 - 1], "int64min": [-(2**63)], "neg": [-5, -1]},
     "float": {"zero": [0.0], "maxfloat": [1.7976931348623157e308], "denormal": [5e-324], "negative": [-1.5, -2.5e-10], "fraction": [0.1, 1 / 3]},
-    "varchar": {"empty": [""], "plain": ["abc"], "unicode": ["é😀日本", "é́"], "quote": ["it's \"q\"", "''"], "newline": ["a\nb\tc"], "long": ["x" * 5000]},
+    "varchar": {"empty": [""], "plain": ["abc"], "unicode": ["é😀日本", "é́"], "quote": ["it's \"q\"", "''"], "newline": ["a\nb\tc"], "long": ["x" * 5000],
+                # text that looks like a session variable reference (VT_AMOUNT is set on the connection, $5 / $nosuch are not) or like a placeholder
+                "dollar": ["pay $vt_amount now", "costs $5", "$nosuch_var", "$VT_AMOUNT"], "percent": ["100%s off", "%(x)s and ? and :1", "50%"]},
     "date": {"epoch": [dt.date(1970, 1, 1)], "pre1970": [dt.date(1969, 12, 31), dt.date(1900, 2, 28)], "min": [dt.date(1, 1, 1)], "max": [dt.date(9999, 12, 31)],
              "leapday": [dt.date(2024, 2, 29)]},
     "time": {"midnight": [dt.time(0, 0, 0)], "usec": [dt.time(12, 34, 56, 123456)], "last": [dt.time(23, 59, 59, 999999)]},
@@ -126,7 +128,8 @@ class C01(Prop):
     def model_checks(self, tier):
         c = {"TypesUsed": set(DDL), "Devs": set(), "Depth": 2, "MaxFails": 0, "SampleOneIn": 1}
         out = [dict(name="mc_ideal", consts=c, invariants=["StepInv"], constraint="Bound", view="ViewSt")]
-        for d in ("C01.number_scale0_as_decimal", "C01.binary_text_is_not_hex", "C01.bytes_parameter_rejected", "C01.qmark_38_digit_int_rejected"):
+        for d in ("C01.number_scale0_as_decimal", "C01.binary_text_is_not_hex", "C01.bytes_parameter_rejected", "C01.qmark_38_digit_int_rejected",
+                  "C01.dollar_word_in_text_literal"):
             out.append(dict(name="mc_" + d.split(".")[1], consts=dict(c, Devs={d}), invariants=["StepInv"], constraint="Bound", view="ViewSt", devs=[d]))
         return out
 
@@ -164,7 +167,7 @@ class C01(Prop):
 
         ty, path, vc, nulls, nrows = op["ty"], op["path"], op["vc"], op["nulls"], op["rows"]
         pool = VALUES[ty][vc]
-        if path == "write_pandas" and ty == "number38":
+        if path.startswith("write_pandas") and ty == "number38":
             # a DataFrame column reaches the real connector as parquet int64: wider integers are not valid input there
             pool = [v for v in pool if abs(v) < 2**63] or [2**63 - 1 if vc != "min38" else -(2**63) + 1]
         vals = [rng.choice(pool) for _ in range(nrows)]
@@ -184,6 +187,7 @@ class C01(Prop):
         finally:
             snowflake.connector.paramstyle = saved
         cur = conn.cursor()
+        cur.execute("set vt_amount = 100")     # a session variable whose name occurs in the 'dollar' text values
         fq, stg = f"DB1.S1.{tname}", f"DB1.S1.{tname}_STG"
         target = tname
         obs = {"res": "ok", "same": False, "pyc": "none", "others": "ok"}
@@ -222,11 +226,12 @@ class C01(Prop):
                 rawfill(fq)
                 target = tname + "_C"
                 cur.execute(f"create table {target} clone {tname}")
-            elif path == "write_pandas":
+            elif path in ("write_pandas", "write_pandas_chunked"):
                 import pandas as pd
 
                 df = pd.DataFrame({"I": list(range(len(vals))), "V": pd.Series(vals, dtype="object" if ty not in ("float",) else None)})
-                ok, _chunks, n, _ = write_pandas(conn, df, tname)
+                kw = {} if path == "write_pandas" else {"chunk_size": rng.choice([2, 5] if len(vals) == 3 else [2, 3])}
+                ok, _chunks, n, _ = write_pandas(conn, df, tname, **kw)
                 if not ok or n != len(vals):
                     obs["res"] = "badcount"
             rows = cur.execute(f"select i, v from {target} order by i").fetchall()
